@@ -545,6 +545,9 @@ inline void SLUFactorRational::assign(const SLUFactorRational& old)
    memcpy(col.orig, old.col.orig, (unsigned int)thedim * sizeof(*col.orig));
    diag = old.diag;
 
+   // the temporary vectors are not copied, but they need the dimension of the copied factorization
+   vec.reDim(thedim);
+   ssvec.reDim(thedim);
    work = vec.get_ptr();
 
    /* setup U
